@@ -87,3 +87,14 @@ POPCOUNT_DEFINE_PORTABLE(I64_POPCNT, u64)
 #define I64_ROTL(x, y) ((int64_t)ROTL((uint64_t)(x), y, 63))
 #define I32_ROTR(x, y) ((int32_t)ROTR((uint32_t)(x), y, 31))
 #define I64_ROTR(x, y) ((int64_t)ROTR((uint64_t)(x), y, 63))
+
+// WebAssembly min/max: a NaN operand gives NaN and -0 is smaller than +0
+// (fmin/fmax of C return the other operand for a NaN and do not order the zeros)
+#define F_MIN(x, y)                                            \
+  ((((x) != (x)) || ((y) != (y))) ? ((x) + (y))                \
+   : (((x) == 0) && ((y) == 0)) ? (signbit(x) ? (x) : (y))     \
+   : ((x) < (y)) ? (x) : (y))
+#define F_MAX(x, y)                                            \
+  ((((x) != (x)) || ((y) != (y))) ? ((x) + (y))                \
+   : (((x) == 0) && ((y) == 0)) ? (signbit(x) ? (y) : (x))     \
+   : ((x) > (y)) ? (x) : (y))
